@@ -45,7 +45,7 @@ def main():
                 c = sh('%s -std=c++17 %s -w -I%s/include -I/usr/include/eigen3 %s %s -o %s -lpthread' % (cxx, flags, wt, os.path.join(src, 'demo.cpp'), srcs, exe), timeout=1800)
                 if c.returncode != 0:
                     return {'rc': 'compile-error', 'out': c.stdout[-1500:]}
-                r_ = sh('cd %s && %s %s' % (wt, exe, os.path.join(wt, 'test/data')), timeout=1800)
+                r_ = sh('cd %s && %s' % (wt, exe), timeout=1800)
                 os.remove(exe)
             return {'rc': r_.returncode, 'out': r_.stdout[-800:]}
         meta['steps']['demo_original'] = run_demo('original')
